@@ -61,8 +61,8 @@ def _inheritedDocsources(obj: model.Documentable) -> Iterator[model.Documentable
     name = obj.name
     for interface in obj.parent.allImplementedInterfaces:
         io = obj.system.objForFullName(interface)
-        if io is not None:
-            assert isinstance(io, ZopeInterfaceClass)
+        if isinstance(io, ZopeInterfaceClass):
+            # (anything can be written as argument of @implementer: only classes can be a source of documentation)
             for io2 in io.mro():
                 if name in io2.contents:
                     yield io2.contents[name]
